@@ -70,6 +70,12 @@ class C03(core.Prop):
                 for arom in ((False,) if (na * nd > 2 or nc > 2) else (False, True)):
                     out.append({'mode': 'unit', 'nc': nc, 'topo': topo, 'na': na, 'nd': nd, 'll': ll, 'legacy': legacy, 'arom': arom,
                                 'omax': 4 if na * nd * nc <= 4 else 2})
+        # descriptors whose labels differ in length (a labelled one against an unlabelled one, ...)
+        for (nc, topo, na, nd, ll) in ([(2, 'chain', 1, 1, 1), (2, 'chain', 1, 2, 1)] if tier == 'quick' else
+                                       [(2, 'chain', 1, 1, 1), (2, 'chain', 1, 2, 1), (2, 'chain', 2, 1, 1), (2, 'chain', 1, 2, 2), (3, 'chain', 1, 2, 1)]):
+            for legacy in (True, False):
+                out.append({'mode': 'unit', 'nc': nc, 'topo': topo, 'na': na, 'nd': nd, 'll': ll, 'legacy': legacy, 'arom': False,
+                            'omax': 3, 'mixed': True})
         from .c01 import PROP as C01P
         mc = C01P.shapes(tier)
         if tier == 'quick':
@@ -99,8 +105,11 @@ class C03(core.Prop):
                 ds = []
                 for d in range(shape['nd']):
                     tag = "c%da%dd%d" % (c, a, d)
+                    ll = shape['ll']
+                    if shape.get('mixed'):
+                        ll = (c + a + d) % 2 + (shape['ll'] if shape['ll'] else 0) * ((c + d) % 2)   # label lengths differ between descriptors
                     ds.append(SymStr([sym_char(tag + 'k', allowed='$!<>')] +
-                                     [sym_alnum("%sl%d" % (tag, i)) for i in range(shape['ll'])] +
+                                     [sym_alnum("%sl%d" % (tag, i)) for i in range(ll)] +
                                      [sym_char(tag + 'o', lo=49, hi=51)]))
                 desc[str(nid)] = ds
                 nid += 1
